@@ -955,6 +955,8 @@ def spec(t, v, path, off):
             return {kk: spec(t[1], x, path + [("k", kk)], off) for kk, x in v.items()}
         return bad()
     if k == "struct":
+        if isinstance(v, Inst):
+            v = dict(v.fields)            # a dataclass instance is accepted as data: its own items
         if not isinstance(v, dict):
             return bad()
         items = []
@@ -1091,7 +1093,7 @@ def oracle_parse(t, data, outcome):
     if off:
         o = off[0]
         return f"struct:accepted-inadmissible:{o[0]}:{o[2]}:{o[3]}", f"offending {o[0]} at {render_path(o[1])!r} accepted"
-    jsonlike = "U" not in [tok[0] for tok in enc_val(data).split(" ")]
+    jsonlike = not ({"U", "O"} & {tok[0] for tok in enc_val(data).split(" ")})
     if enc_val(rn) != enc_val(exp):
         if unordered(rn) != unordered(exp):
             return "struct:value-altered", f"got {rn!r} expected {exp!r}"
@@ -1866,6 +1868,13 @@ def fixed_struct_corpus():
     inner = ("struct", "FixIn", [("p", i, False, None)])
     out.append((("struct", "FixAl", [("u", inner, False, None), ("v", inner, False, None), ("w", ("any",), True, None)]),
                 {"u": shared, "v": shared, "w": shared}, "from_dict"))
+    # a dataclass instance as data (the constructor's re-validation route): validated through its own items
+    fi = ("struct", "FixI", [("p", i, False, None), ("w", ("any",), True, None)])
+    out += [(fi, Inst("FixI", [("p", 1), ("w", None)]), "pcv"),
+            (fi, Inst("FixI", [("p", 1), ("w", Inst("FixI", [("p", 2), ("w", None)]))]), "pcv"),
+            (fi, Inst("FixI", [("p", "bad"), ("w", None)]), "pcv"),
+            (("list", fi), [Inst("FixI", [("p", 1), ("w", [1, 2])]), {"p": 2}], "pcv"),
+            (("struct", "FixO", [("i", fi, False, None)]), {"i": Inst("FixI", [("p", 3), ("w", {"k": 1})])}, "from_dict")]
     # nesting: 30 levels of List / Optional / Dict around a scalar (well below Python's recursion limit), 8 of structures
     t, v, bad = i, 7, "x"
     for k in range(30):
